@@ -65,7 +65,8 @@ def _wrap(modname, name, fn):
                                      'changed during a later call of %s: %s -> %s' % (qual, np.array2string(copy, threshold=12),
                                                                                        np.array2string(arr, threshold=12)))
         for r in _arrays(res):
-            if r.size <= 4096:
+            # a result that is (a view of) one of the caller's own arrays belongs to the caller, who may change it
+            if r.size <= 4096 and not any(np.shares_memory(r, x) for _, x, _ in snap):
                 held.append((qual, r, r.copy()))
         del held[:-KEEP]
         return res
